@@ -474,6 +474,9 @@ class MetadorGroup(MetadorNode):
             self._guard_path(dest)
             dst_path = dest
         elif isinstance(dest, MetadorGroup):
+            if M.is_internal_path(dst_name):  # name is user-provided -> must be checked
+                msg = f"Trying to use a Metador-internal path: '{dst_name}'"
+                raise ValueError(msg)
             dst_path = dest.name + f"/{dst_name}"
         else:
             raise ValueError("Copy dest must be path or Group!")
